@@ -53,7 +53,11 @@ type debSUT struct {
 	trace    []string  // observed events in the order they were logged (under mu)
 	traceOut *wire.Out // where `end` writes the trace line (exec only)
 	floodExtra int     // copies a `flood` sent beyond its count (not part of the compared numbers)
-	noMaxPush  bool    // a flood ran out of patience without any push being entered
+	noMaxPush  bool    // a flood whose copies all came closer together than the quiet period saw no push entered within 3*debounceMax
+	floodLate  bool    // ... saw the push entered later than 2*debounceMax + DebounceAfter
+	floodUnjudged bool // no flood of this case could be judged (the machine let the quiet period elapse every time)
+	floodJudged   bool
+	floodAttempts int
 }
 
 // viewCanon prints a request the way the Lean driver prints a model value (showViewCanon).
@@ -326,9 +330,13 @@ func (s *debSUT) apply(f []string) (out string) {
 		s.offer(i, s.h.reqs[i])
 		return "ok"
 	case "flood":
-		// flood <req> <n> <gap-ms>: n copies of a request, one every gap ms (gap < DebounceAfter): the quiet
-		// period never elapses, so the push has to come through debounceMax.  If no push has been entered
-		// by then the copies keep coming (uncounted) until one is, or patience runs out.
+		// flood <req> <n> <gap-ms>: n copies of a request, one every gap ms (gap well below DebounceAfter) for about
+		// 3*debounceMax: the quiet period never elapses, so a push has to be entered through debounceMax - by
+		// 2*debounceMax, says the clause.  Whether the quiet period really never elapsed is read off the clock: a
+		// flood is judged only if no two consecutive copies were further apart than DebounceAfter up to the moment
+		// the push was seen (a sleep that overshoots under machine load lets the quiet period elapse, and then
+		// nothing can be said).  An unjudged flood is repeated (its copies are not part of the compared numbers) up
+		// to four times; if none could be judged the case says so (trace token N|flood-unjudged).
 		if len(f) != 4 {
 			return "bad-op"
 		}
@@ -340,28 +348,83 @@ func (s *debSUT) apply(f []string) (out string) {
 		}
 		s.start()
 		s.mu.Lock()
-		before := len(s.pushes) + len(s.bypass)
 		held := s.hold // a held pushFn keeps the loop from entering another: nothing to expect from this flood
+		bypass := s.isBypass(s.h.reqs[i])
 		s.mu.Unlock()
-		pushedSince := func() bool {
-			s.mu.Lock()
-			defer s.mu.Unlock()
-			return len(s.pushes)+len(s.bypass) > before
-		}
-		deadline := time.Now().Add(patience() / 3)
-		for k := 0; ; k++ {
-			if k >= n {
-				if held || pushedSince() {
+		limit := s.after - time.Millisecond
+		judged := held || bypass || limit <= time.Duration(gap)*time.Millisecond
+		for attempt := 0; attempt < 5; attempt++ {
+			if attempt > 0 {
+				if judged {
 					break
 				}
-				if time.Now().After(deadline) {
-					s.noMaxPush = true
-					break
-				}
-				s.floodExtra++
+				// start again from an idle loop
+				waitUntil(func() bool { s.mu.Lock(); defer s.mu.Unlock(); return s.sent.Load() >= int64(s.nsend) && s.inflight == 0 })
+				time.Sleep(s.after + 2*time.Millisecond)
 			}
-			s.offer(i, cloneReq(s.h.reqs[i]))
-			time.Sleep(time.Duration(gap) * time.Millisecond)
+			s.floodAttempts++
+			s.mu.Lock()
+			before := len(s.pushes) + len(s.bypass)
+			s.mu.Unlock()
+			pushedSince := func() bool {
+				s.mu.Lock()
+				defer s.mu.Unlock()
+				return len(s.pushes)+len(s.bypass) > before
+			}
+			clean, sawPush := true, false
+			var first, prevStart, sawAt time.Time
+			look := func() {
+				if sawPush || !clean {
+					return
+				}
+				if !prevStart.IsZero() && time.Since(prevStart) >= limit {
+					clean = false // the quiet period may have elapsed here
+					return
+				}
+				if pushedSince() {
+					sawPush, sawAt = true, time.Now()
+				}
+			}
+			for k := 0; ; k++ {
+				if k >= n && (attempt > 0 || judged || sawPush || !clean || time.Since(first) >= 4*s.max) {
+					break
+				}
+				if attempt > 0 && (sawPush || !clean) {
+					break // (an extra flood has nothing more to say)
+				}
+				st := time.Now()
+				if k == 0 {
+					first = st
+				}
+				if attempt > 0 || k >= n {
+					s.floodExtra++
+				}
+				s.offer(i, cloneReq(s.h.reqs[i]))
+				look()
+				prevStart = st
+				time.Sleep(time.Duration(gap) * time.Millisecond)
+				look()
+			}
+			if judged {
+				continue
+			}
+			switch {
+			case !clean:
+				// nothing can be said; again
+			case sawPush && sawAt.Sub(first) > 2*s.max+s.after:
+				s.floodLate = true
+				judged = true
+			case sawPush:
+				judged = true
+			case time.Since(first) >= 3*s.max:
+				s.noMaxPush = true
+				judged = true
+			}
+		}
+		if !judged {
+			s.floodUnjudged = true
+		} else if !held && !bypass {
+			s.floodJudged = true
 		}
 		return "ok"
 	case "sleep":
@@ -395,6 +458,16 @@ func (s *debSUT) apply(f []string) (out string) {
 		r := s.finish()
 		s.mu.Lock()
 		tr := append(append([]string{"trace"}, s.trace...), fmt.Sprintf("U|%d", r.sent))
+		// notes for the check (not events): how the floods of this case went
+		if s.floodAttempts > 0 {
+			tr = append(tr, fmt.Sprintf("N|flood-attempts=%d", s.floodAttempts))
+		}
+		if s.floodJudged {
+			tr = append(tr, "N|flood-judged")
+		}
+		if s.floodUnjudged {
+			tr = append(tr, "N|flood-unjudged")
+		}
 		s.mu.Unlock()
 		if s.traceOut != nil {
 			s.traceOut.Line(tr...)
@@ -419,7 +492,7 @@ func genDebounceCase(r *wire.Rng, c int, out *wire.Out) {
 	if flood {
 		// a long quiet period and updates four to five times closer together than it: a sleep that overshoots
 		// (machine load) does not let the quiet period elapse by accident
-		after = 20 + r.Intn(16)
+		after = 40 + r.Intn(20)
 		max = after*2 + r.Intn(30)
 	}
 	eds := !r.Chance(1, 4)
@@ -567,6 +640,8 @@ func (s *debSUT) verdictOf(r debResult) (clause, detail string) {
 	switch {
 	case s.noMaxPush:
 		return "no-push-while-updates-keep-coming(debounceMax-not-honoured)", ""
+	case s.floodLate:
+		return "push-later-than-debounceMax-while-updates-keep-coming", ""
 	case !r.quiescent:
 		return "accepted-update-never-pushed", fmt.Sprintf("updateSent=%d of %d events", r.sent, r.events)
 	case !r.facts.Equals(s.allSent):
